@@ -26,7 +26,9 @@ GridK(id, a) ==
 SumSeqI(q) == LET RECURSIVE F(_) F(z) == IF z = <<>> THEN 0 ELSE Head(z) + F(Tail(z)) IN F(q)
 Cases == {<<a, g>> : a \in [1 .. 1 -> 1 .. 4], g \in [1 .. 1 -> 1 .. 5]} \cup
          {c \in {<<a, g>> : a \in [1 .. 2 -> 1 .. 4], g \in [1 .. 2 -> 1 .. 5]} : (SumSeqI(c[1]) + 2 * SumSeqI(c[2])) % MaxCase = 0} \cup
-         {c \in {<<a, g>> : a \in [1 .. 3 -> 1 .. 3], g \in [1 .. 3 -> 1 .. 5]} : (SumSeqI(c[1]) * 3 + SumSeqI(c[2])) % (7 * MaxCase) = 1}
+         {c \in {<<a, g>> : a \in [1 .. 3 -> 1 .. 3], g \in [1 .. 3 -> 1 .. 5]} : (SumSeqI(c[1]) * 3 + SumSeqI(c[2])) % (7 * MaxCase) = 1} \cup
+         \* four dimensions: the two smallest axes, short abscissa lists (sorted / unsorted+repeated / single point)
+         {c \in {<<a, g>> : a \in [1 .. 4 -> 1 .. 2], g \in [1 .. 4 -> {1, 2, 4}]} : (SumSeqI(c[1]) * 5 + SumSeqI(c[2]) * 3 + c[2][1] + 2 * c[1][4]) % (23 * MaxCase) = 2}
 VARIABLE cs
 AxesOf == {c[1] : c \in Cases}
 Init == cs \in {<<a>> : a \in AxesOf}
